@@ -17,8 +17,11 @@ EXTRA_ALGS = ("md5", "sha1", "blake2b-512")
 
 # --------------------------------------------------------------------------- Coq terms
 
+CHUNK = 1200      # a Coq string literal is a term nested one level per character: keep the nesting shallow
+
+
 def coq_bytes(data):
-    """Coq term of type bytes; printable runs as string literals, the rest as numerals"""
+    """Coq term of type bytes; printable runs as (chunked) string literals, the rest as numerals"""
     if isinstance(data, str):
         data = data.encode("utf-8", "surrogatepass")
     if not data:
@@ -27,19 +30,22 @@ def coq_bytes(data):
     i, n = 0, len(data)
     while i < n:
         j = i
-        while j < n and 32 <= data[j] < 127:
+        while j < n and 32 <= data[j] < 127 and j - i < CHUNK:
             j += 1
         if j > i:
             parts.append('(b "%s")' % data[i:j].decode("ascii").replace('"', '""'))
         i = j
-        while j < n and not (32 <= data[j] < 127):
+        while j < n and not (32 <= data[j] < 127) and j - i < 300:
             j += 1
         if j > i:
             parts.append("(bs [%s])" % "; ".join(str(c) for c in data[i:j]))
         i = j
     if len(parts) == 1:
         return parts[0]
-    return "(" + " ++ ".join(parts) + ")"
+    # balanced tree of appends (a right-nested chain of a hundred ++ is fine, thousands are not)
+    while len(parts) > 1:
+        parts = ["(%s ++ %s)" % (parts[k], parts[k + 1]) if k + 1 < len(parts) else parts[k] for k in range(0, len(parts), 2)]
+    return parts[0]
 
 
 def digests_of(data, extra):
@@ -128,7 +134,9 @@ def g_verdicts(name, roots, batch=40):
             if x not in seen and b"\\" in x:      # the classifier can only fire on a text with a backslash
                 seen.add(x)
                 invs.append(x)
-        terms.append("g_known_escape [%s]" % "; ".join(coq_bytes(x) for x in invs))
+        # the second classifier reads the root inventory; hand it over only when it can fire
+        root = allinv[0] if allinv and b'""' in allinv[0] else None
+        terms.append("g_known %s [%s]" % ("None" if root is None else "(Some %s)" % coq_bytes(root), "; ".join(coq_bytes(x) for x in invs)))
     res = common.coq_eval(name, IMPORTS, terms, batch=batch)
     out = []
     for i in range(len(roots)):
@@ -136,9 +144,11 @@ def g_verdicts(name, roots, batch=40):
         m = re.match(r"^\((.*),\s*(\[[^\]]*\]|nil)\)$", pair)
         if not m:
             raise common.BuildError("unexpected Coq value for g_object2: %r" % pair[:200])
-        if known not in ("true", "false"):
-            raise common.BuildError("unexpected Coq value for g_known_escape: %r" % known[:200])
-        out.append({"fix": parse_codes(m.group(1)), "nofix": parse_codes(m.group(2)), "known": known == "true"})
+        mk = re.match(r"^\((true|false),\s*(true|false)\)$", known)
+        if not mk:
+            raise common.BuildError("unexpected Coq value for g_known: %r" % known[:200])
+        out.append({"fix": parse_codes(m.group(1)), "nofix": parse_codes(m.group(2)),
+                    "known": mk.group(1) == "true", "known_empty_lpath": mk.group(2) == "true"})
     return out
 
 
